@@ -25,7 +25,8 @@ func (c01) Meta() fw.Meta {
 			"oracle: each returned value bit-equals the value in the physical slot floor_mod((I-base)/S,N) iff that slot holds interval I, else NaN; each direct write changes exactly the addressed slot. " +
 			"non-trivial = the history produced at least one stale-lap NaN read, ring-end-crossing read or page-straddling slot read; distinct by hash of (layout, clock, ops)." +
 			" Also: after every write the coarser archives must hold what the downsampling oracle (C02) prescribes over these histories (clock jumps, steps back, late points into named archives); every 4th case ends with a reader whose Open had to wait for a writer holding the lock with unsynced changes - it must read what that writer synced." +
-			" Every 3rd case hands each batch, as the very same slice, first to the coarsest archive of a second file and then to the file under test.",
+			" Every 3rd case hands each batch, as the very same slice, first to the coarsest archive of a second file and then to the file under test." +
+			" Every 5th case lets batches carry points up to three intervals ahead of the clock and runs of consecutive intervals longer than the ring.",
 		Assumptions: []string{
 			"clock domain: maxRetention + 2*maxStep <= now and now + 2*maxStep < 2^32 (no wrap of the format's unsigned 32-bit time)",
 			"raw slot state is read through the live handle (GetAllRawUnsortedPoints) and cross-checked against the harness' own parse of the file bytes at every sync/reopen",
